@@ -128,8 +128,20 @@ def fam_c01(tier, seed):
     return sks
 
 
+def bnb_split_event_family():
+    """a disposal identified with a purchase in the following 30 days, a split/unsplit between the two, and a capital
+    return / accumulation after the purchase (three mechanisms that only meet on such ledgers)"""
+    out = []
+    for sx in ("X", "U"):
+        for (ds, dx, db, de) in ((1, 1, 30, 31), (1, 30, 31, 61), (0, 1, 30, 61), (1, 30, 31, 31), (0, 0, 30, 31)):
+            for ev in ("C", "M"):
+                out.append(([["B", "A", 0], ["S", "A", ds], [sx, "A", dx, "2"], ["B", "A", db], [ev, "A", de]], BASES[0]))
+        out.append(([["B", "A", 0], ["S", "A", 1], [sx, "A", 30, "3"], ["B", "A", 31], ["C", "A", 61], ["S", "A", 61]], BASES[0]))
+    return [(sk.canon_order(l), b) for l, b in out]
+
+
 def fam_c02(tier, seed):
-    items = matching_family(tier, seed, events=("X", "U", "C", "M", "D"))
+    items = matching_family(tier, seed, events=("X", "U", "C", "M", "D")) + bnb_split_event_family()
     sks = _number("m", items)
     sks += _number("i", interleaved_family(tier))
     rep = report_level([it for it in items if it[1] == BASES[0]], 4 if tier == "quick" else 5, quick=tier == "quick")
@@ -141,9 +153,10 @@ def fam_c05(tier, seed):
     items = matching_family(tier, seed, events=("X", "U"))
     # ratios whose reciprocal does not terminate (decimal residue on the real build; see boundary witnesses)
     b3 = list(sk.bs_family(2, 3, SHORT, need_sell=True))
-    for l in sk.with_events(b3, ("X", "U"), [0, 1, 30], ratios=("3",), max_events=1):
-        items.append((l, BASES[0]))
+    res3 = [(l, BASES[0]) for l in sk.with_events(b3, ("X", "U"), [0, 1, 30], ratios=("3",), max_events=1)]
     sks = _number("m", items)
+    # ... with a concrete witness of EVERY path replayed on the real build
+    sks += [mk(i, "z", l, base=b, wit=1) for i, (l, b) in enumerate(res3)]
     sks += _number("i", interleaved_family(tier))
     rep = report_level([it for it in items if it[1] == BASES[0]], 3 if tier == "quick" else 4, quick=False)
     sks += _number("r", rep, level="report")
@@ -283,7 +296,7 @@ def fam_c10(tier, seed):
     b2s = list(sk.bs_family(2, 3, [0, 30], tickers=("A", "B"), need_sell=True))
     for l in sk.with_events(b2s, ("X",), [0, 1, 30], ratios=("2",), max_events=1, tickers=("B",)):
         items.append((l, BASES[0]))
-    sks = _number("t", _dedup(items), variant="twin")
+    sks = _number("t", _dedup(items + bnb_split_event_family()), variant="twin")
     noop = []
     for l in sk.bs_family(1, nb, SHORT, need_sell=False):
         for d in SHORT:
@@ -307,7 +320,7 @@ def fam_c11(tier, seed):
     b2s = list(sk.bs_family(2, 3, [0, 30], tickers=("A", "B"), need_sell=False))
     for l in sk.with_events(b2s, ("C", "M"), [0, 1, 30], max_events=1, tickers=("B",)):
         items.append((l, BASES[0]))
-    items = _dedup(items)
+    items = _dedup(items + bnb_split_event_family())
     sks = _number("e", items, variant="events")
     canc = [it for it in items if any(x[0] == "C" for x in it[0]) and not any(x[0] == "M" for x in it[0])]
     sks += _number("k", canc, variant="cancel")
@@ -492,6 +505,10 @@ def fam_c14(tier, seed):
             for c1 in (curs if KIND_SLOTS[k] else ["GBP"]):
                 for c2 in (curs if KIND_SLOTS[k] else ["GBP"]):
                     sks.append(mk(i, "k", [one_line(k, t, 0, c1, c2)], wit=2)); i += 1
+    # calendar positions where week-based and calendar years differ, a leap day, year ends
+    for b in ("2024-12-30", "2024-12-31", "2021-01-01", "2022-01-02", "2023-01-01", "2020-02-29", "2019-12-31", "2026-01-01"):
+        for k in "BSDMCXU":
+            sks.append(mk(i, "y", [one_line(k, "A", 0, "USD" if KIND_SLOTS[k] else "GBP", "GBP")], base=b, wit=2)); i += 1
     # every ISO-4217 code known to iso_currency on every amount slot
     codes = iso_codes()
     for k in "BSDMC":
@@ -815,6 +832,8 @@ def fam_c16(tier, seed):
         [["B", "A", 0], ["S", "A", 1], ["S", "A", 30]],
         [["B", "B", 0], ["B", "A", 0], ["S", "A", 30], ["S", "B", 30]],
         [["B", "A", 0], ["B", "B", 0], ["D", "A", 1], ["D", "B", 30], ["S", "A", 30]],
+        # same-day sales listed in non-alphabetical ticker order
+        [["B", "B", 0], ["B", "A", 0], ["S", "B", 1], ["S", "A", 1]],
     ]
     for sh in sym_shapes:
         # prices and fees symbolic (so every gain sign is explored), quantities concrete (no matcher forks)
@@ -827,6 +846,10 @@ def fam_c16(tier, seed):
         [["B", "C", 0], ["B", "A", 0], ["B", "B", 0], ["S", "C", 1], ["S", "A", 30], ["S", "B", 400]],
         [["B", "A", 0], ["B", "B", 0], ["B", "C", 0], ["S", "A", 1], ["S", "B", 30], ["S", "C", 30], ["S", "A", 400], ["S", "B", 400]],
     ]
+    # long symbols sharing a long prefix (same-issuer ISINs), sold on one day, listed in non-alphabetical order
+    I1, I2, I3 = "IE00B4L5Y983", "IE00B4L5YC18", "IE00B4L5Y0AA"
+    big.append([["B", I2, 0], ["B", I1, 0], ["B", I3, 0], ["S", I2, 1], ["S", I3, 1], ["S", I1, 1]])
+    big.append([["B", "VOD", 0], ["B", "BARC", 0], ["B", "LLOY", 0], ["B", "AZN", 0], ["S", "VOD", 1], ["S", "BARC", 1], ["S", "LLOY", 1], ["S", "AZN", 1]])
     for sh in big:
         sks.append(mk(i, "q", sh, base=b, wit=5, mode="")); i += 1
         if tier == "thorough":
